@@ -52,6 +52,8 @@ SCOPE_FUNCS = [
     "transports::ice::handle_packet", "transports::ice::handle_turn_packet",
     "<transports::ice::conn::IceConn as transports::PacketReceiver>::receive",
     "<transports::rtp::RtpTransport as transports::PacketReceiver>::receive",
+    "peer_connection::PeerConnection::set_remote_description", "peer_connection::PeerConnection::set_local_description",
+    "peer_connection::parse_sdes_crypto", "peer_connection::map_crypto_suite",
 ]
 EXCLUDE = ("::tests::", "tests::", "::fmt", "Serialize", "Deserialize", "::{closure#0}::{closure")
 
@@ -66,14 +68,83 @@ def in_scope(name):
     return base in SCOPE_FUNCS
 
 
-def _param_keys(body):
-    """canonical keys of buffer parameters (by-ref or by-value) -> parameter index (0-based among args)"""
+BUF_TYS = ("[u8]", "bytes::Bytes", "bytes::BytesMut", "Vec<u8>", "&str", "String")
+
+
+def _is_buf_ty(ty):
+    t = ty
+    for pre in ("&mut ", "&", "mut "):
+        while t.startswith(pre):
+            t = t[len(pre):]
+    return t.startswith(("[u8]", "bytes::Bytes", "bytes::BytesMut", "std::vec::Vec<u8>", "str", "std::string::String", "[u8;"))
+
+
+def _param_keys(body, facts=None):
+    """canonical keys of buffer parameters (by-ref or by-value) -> parameter index (0-based among args).
+    For the coroutine body of an `async fn` the parameters are the captured fields of the environment."""
     out = {}
+    if body.is_closure and body.coroutine and facts is not None and body.parent and facts.has_body(body.parent):
+        par = facts.body(body.parent)
+        for l in range(1, par.argc + 1):
+            ty = par.locals[l]["ty"]
+            nm = par.locals[l].get("n")
+            if nm and _is_buf_ty(ty):
+                out["$env.%s" % nm] = l - 1
+        return out
     for l in range(1, body.argc + 1):
         ty = body.locals[l]["ty"]
-        if any(x in ty for x in ("[u8]", "bytes::Bytes", "bytes::BytesMut", "Vec<u8>", "&str", "String")):
+        if _is_buf_ty(ty):
             t = body.term_local(l)
             out[mir.show(t, 240)] = l - 1
+    return out
+
+
+def _feeds_comparison(b, dst):
+    """does the value stored in dst (a len()/is_empty() result) reach a comparison or a branch?"""
+    if "p" in dst:
+        return True
+    derived = {dst["l"]}
+    if b.locals[dst["l"]]["ty"] == "bool":
+        for blk in b.blocks:
+            t = blk["t"]
+            if t["k"] == "switch" and t["d"]["k"] in ("cp", "mv") and t["d"]["p"]["l"] in derived:
+                return True
+    for _ in range(4):
+        grew = False
+        for bi, si, s in b.assigns():
+            rv = s["rv"]
+            ops = [rv.get("o"), rv.get("a"), rv.get("b")]
+            if any(o and o["k"] in ("cp", "mv") and o["p"]["l"] in derived for o in ops):
+                if rv["r"] == "bin" and rv["op"] in ("Lt", "Le", "Gt", "Ge", "Eq", "Ne"):
+                    return True
+                if "p" not in s["p"] and s["p"]["l"] not in derived:
+                    derived.add(s["p"]["l"])
+                    grew = True
+        if not grew:
+            break
+    return False
+
+
+def helper_ranges(facts):
+    """small local functions that return one of a few integer constants: {path: (min, max)}"""
+    out = {}
+    for b in facts.all_bodies():
+        if b.is_closure or len(b.blocks) > 40 or b.locals[0]["ty"] not in lenana.TYPE_MAX:
+            continue
+        vals = []
+        ok = True
+        for bi, si, s in b.assigns():
+            if s["p"]["l"] == 0 and "p" not in s["p"]:
+                v = mir.int_value(b.term_rvalue(s["rv"]))
+                if v is None:
+                    ok = False
+                else:
+                    vals.append(v)
+        for bi, t, p in b.calls():
+            if t["dst"]["l"] == 0:
+                ok = False
+        if ok and vals:
+            out[b.name] = (min(vals), max(vals))
     return out
 
 
@@ -86,10 +157,12 @@ def analyse_all(ctx):
     bodies = [b for b in facts.all_bodies() if in_scope(b.name)]
     # pass 1: infer preconditions  len(param) >= K  that make all parameter-related obligations provable
     summaries = {}
+    ranges = helper_ranges(facts)
+    lenana.Analyzer.HELPER_RANGES = ranges
     for b in bodies:
-        if b.is_closure:
+        if b.is_closure and not b.coroutine:
             continue
-        pk = _param_keys(b)
+        pk = _param_keys(b, facts)
         if not pk:
             continue
         sites = lenana.Analyzer(b).run()
@@ -99,32 +172,54 @@ def analyse_all(ctx):
         # a function that inspects the length of a parameter validates it itself: no precondition is inferred for it
         self_checking = set()
         for bi, t, path in b.calls():
-            if path and t["a"] and (path.endswith("::len") or path.endswith("::remaining") or path.endswith("::is_empty") or path.endswith("::has_remaining")):
-                self_checking.add(mir.show(b.term_operand(t["a"][0]), 240))
+            if path and t["a"] and \
+                    (path.endswith("::len") or path.endswith("::remaining") or path.endswith("::is_empty") or path.endswith("::has_remaining")):
+                if _feeds_comparison(b, t["dst"]):
+                    self_checking.add(mir.show(b.term_operand(t["a"][0]), 240))
         for key, idx in pk.items():
             if key in self_checking:
                 continue
-            rel = [s for s in bad if any(("len(%s" % key[:40]) in t or ("remaining(%s" % key[:40]) in t for t, ok in s.obligations if not ok)
-                   or (s.kind == "assert:bounds" and True)]
+            rel = bad
             if not rel:
                 continue
             for k in CAND:
                 s2 = lenana.Analyzer(b, assume_params={key: k}).run()
                 nb = [s for s in s2 if not s.proven]
-                if len(nb) < len(bad) and not any(x for x in nb if _same(x, rel)):
-                    summaries.setdefault(b.name, {})[idx] = k
+                if len(nb) < len(bad) and _stable(b, key, k, len(nb)):
+                    owner = b.parent if (b.is_closure and b.coroutine) else b.name
+                    summaries.setdefault(owner, {})[idx] = k
                     break
     # pass 2: analyse with preconditions assumed in the callee and required at call sites
     out = {}
     for b in bodies:
         assume = {}
-        if b.name in summaries:
-            pk = _param_keys(b)
+        owner = b.parent if (b.is_closure and b.coroutine) else b.name
+        if owner in summaries:
+            pk = _param_keys(b, facts)
             for key, idx in pk.items():
-                if idx in summaries[b.name]:
-                    assume[key] = summaries[b.name][idx]
+                if idx in summaries[owner]:
+                    assume[key] = summaries[owner][idx]
         out[b.name] = lenana.Analyzer(b, assume_params=assume, summaries=summaries).run()
+    # preconditions must hold at every call site in the crate, also outside the decoder layer
+    if summaries:
+        names = set(out)
+        for b in facts.all_bodies():
+            if b.name in names or "::tests::" in b.name or b.name.startswith("t38::"):
+                continue
+            if any(p in summaries for _, _, p in b.calls() if p):
+                ss = [s for s in lenana.Analyzer(b, summaries=summaries).run() if s.desc.startswith("callee requires")]
+                if ss:
+                    out[b.name] = ss
     return out, summaries
+
+
+def _stable(b, key, k, n_now):
+    """k is the smallest candidate after which assuming more does not prove more"""
+    bigger = [c for c in CAND if c > k][:3]
+    for c in bigger:
+        if len([s for s in lenana.Analyzer(b, assume_params={key: c}).run() if not s.proven]) < n_now:
+            return False
+    return True
 
 
 def _same(site, rel):
